@@ -1201,6 +1201,26 @@ func (env *Env) evalCall(x *ECall) (*Val, error) {
 					return env.visitedSet(int(n.V.Int64()))
 				}
 			}
+		case "rangeindex":
+			// rangeindex(N): the index variable of the `range` loop with ordinal N of the function (an ENCLOSING loop of the
+			// one whose invariant is evaluated; plain `rangeindex` is the innermost one)
+			if env.fr != nil && len(x.Args) == 1 {
+				if n, ok := x.Args[0].(*ENum); ok && n.V.IsInt64() {
+					for _, l := range env.fr.loops {
+						if l.ordinal != int(n.V.Int64()) {
+							continue
+						}
+						for _, in := range l.header.Instrs {
+							if phi, ok := in.(*ssa.Phi); ok && phi.Comment == "rangeindex" {
+								if v, ok := env.fr.vals[phi]; ok {
+									return v, nil
+								}
+							}
+						}
+					}
+					return nil, fmt.Errorf("rangeindex(%s): no range loop with this ordinal is being encoded", n.V)
+				}
+			}
 		case "content":
 			// abstraction of the content of any slice value in the current state (generalises bytes()): an
 			// uninterpreted function of the backing arrays, offset and length -> one scalar of sort Content
